@@ -34,3 +34,29 @@ Proof. vm_compute. repeat split; reflexivity. Qed.
 
 Print Assumptions c13_flex_item_pop_refused.
 Print Assumptions c13_flex_item_pop.
+
+(* a push refused by inner vector j (no room, offset not representable): the outer vector still reads the same items
+   with the same contents (capacities stripped) — together with c12n_history_valid the image stays valid and keeps
+   its length.  For every sized inner item type and every well-typed expression. *)
+From Flatty.Proofs Require Import FlexAllFacts FlexNestedHistFacts FlexNestedSpecFacts FlexNestedRefusedFacts.
+Theorem c13_flex_item_push_refused : forall pv it il l a,
+  wf (TFlex (TFlex it il) l) = true -> narrow_ty (TFlex (TFlex it il) l) = true ->
+  wf it = true -> sized it = true ->
+  forall j i bs vs kd, init_ok it i = true ->
+  validate (TFlex (TFlex it il) l) a bs = Ok tt -> view (TFlex (TFlex it il) l) bs = Ok (VNode 0 vs) ->
+  snd (flex_edit_flex pv (TFlex (TFlex it il) l) a j (FPush i) bs) = OErr kd ->
+  exists vs', view (TFlex (TFlex it il) l) (fst (flex_edit_flex pv (TFlex (TFlex it il) l) a j (FPush i) bs)) = Ok (VNode 0 vs') /\
+    map strip vs' = map strip vs.
+Proof. exact nested_inner_push_refused. Qed.
+
+(* non-vacuity: an inner vector sealed by the next item has no room; the push is refused and nothing changes *)
+Example c13_flex_item_push_refused_example :
+  let l8 := {| isize := 1; ialign := 1; ibe := false |} in
+  let t := TFlex (TFlex (TInt l8) l8) l8 in
+  let im := [3; 255; 1; 255; 0; 9; 9] in
+  validate t 0 im = Ok tt /\
+  snd (flex_edit_flex None t 0 0 (FPush (IInt 7)) im) = OErr InsufficientSize /\
+  fst (flex_edit_flex None t 0 0 (FPush (IInt 7)) im) = im.
+Proof. vm_compute. repeat split; reflexivity. Qed.
+
+Print Assumptions c13_flex_item_push_refused.
